@@ -19,6 +19,8 @@ blk <id> k=v …            defines a block (header fields, body structure, cont
                           `tlargs=<n>` (args length of the reward target lock) makes the model compute
                           `is_lack_of_capacity` of the reward probe cell from `xrew`
 submit <id> now=<ms>      HeaderVerifier, then the chain service                          → <verdict> tip=<id> st=<status>
+                          `dls=<inLockSize.outLockSize.inBlock>;…` the deposit → withdrawing pairs
+                          `DaoScriptSizeVerifier` compares (both cells DAO-typed, input data all zero)
 idx n=<ids> t=<txs> h=<height> e=<epoch>
                           the store indexes as `attach_block` / `detach_block` left them     → main=… uncles=… at=… tx=… ep=…
 ```
@@ -161,7 +163,14 @@ def parseBlkFeatures (id : Nat) (ts : List String) : Blk :=
     expReward := kvNat ts "xrew" 0
     cbLockEq := kvBool ts "cblockeq" true
     txsOk := kvBool ts "txsok" true
-    cycles := kvNat ts "cycles" 0 }
+    cycles := kvNat ts "cycles" 0
+    daoPairs := match kv ts "dls" with
+      | some "-" => []
+      | some v => (v.splitOn ";").filterMap fun t =>
+          match (t.splitOn ".").map parseNat? with
+          | [some a, some b, some c] => some (a, b, c)
+          | _ => none
+      | none => [] }
 
 /-- a block line: the features given as keys; with `tx=…` the cellbase features, the transaction ids
 and the committed ids are derived from the structure; with `tlargs=…` so is the reward-probe verdict -/
@@ -195,7 +204,7 @@ def errName : Err → String
   | .noExtension => "no-extension" | .unknownFields => "unknown-fields" | .emptyExtension => "empty-extension"
   | .extensionTooLong => "extension-too-long" | .invalidExtension => "invalid-extension"
   | .invalidChainRoot => "chain-root" | .invalidExtraHash => "extra-hash"
-  | .txs => "txs" | .exceededCycles => "cycles"
+  | .txs => "txs" | .exceededCycles => "cycles" | .daoLockSizeMismatch => "dao-lock-size"
 
 def resName : Res → String
   | .attached => "attached"
@@ -225,7 +234,8 @@ def parseCfg (c : Cfg) (ts : List String) : Cfg :=
     maxCycles := kvNat ts "maxcycles" c.maxCycles
     win := ⟨kvNat ts "close" c.win.close, kvNat ts "far" c.win.far⟩
     mmrActive := kvBool ts "mmr" c.mmrActive
-    redeliveryGuard := kvBool ts "guard" c.redeliveryGuard }
+    redeliveryGuard := kvBool ts "guard" c.redeliveryGuard
+    daoLimitStart := kvNat ts "daostart" c.daoLimitStart }
 
 /-- length of the common prefix (by id) -/
 def commonPrefix : List Blk → List Blk → Nat
